@@ -117,9 +117,10 @@ func (i *Interpreter) evaluateAsyncExpr(expr AsyncExpr, env *Environment) (inter
 	// Create a new Future to represent the pending result
 	future := NewFuture()
 
-	// Create a child environment for the async block
-	// This captures the current scope for use in the goroutine
-	asyncEnv := NewChildEnvironment(env)
+	// Give the async block a snapshot of the current scope. Environment is not
+	// safe for concurrent use, so the goroutine must not share the parent's
+	// live scopes (the VM likewise snapshots its variables for async blocks).
+	asyncEnv := env.Snapshot()
 
 	// Execute the async block in a separate goroutine
 	go func() {
